@@ -2,6 +2,7 @@ package backend
 
 import (
 	"fmt"
+	"sync"
 	"sync/atomic"
 	"time"
 )
@@ -17,6 +18,11 @@ type NodeInfo struct {
 
 	FuseStrategy     FuseStrategy     // 该节点使用的熔断策略
 	RecoveryStrategy RecoveryStrategy // 该节点使用的恢复策略
+
+	// recoverMu makes a fuse (record the fuse time, mark down) and the health check's decision to
+	// restore the node (recovery condition holds, mark up) exclude each other: without it a fuse that
+	// lands between the check of the condition and the status change is undone at once
+	recoverMu sync.Mutex
 }
 
 // GetStatus 原子读取状态
